@@ -968,6 +968,17 @@ func c11Reopen(c *h.Ctx, id string, r *rand.Rand) {
 	for _, b := range first {
 		srv.Write(b)
 	}
+	// in the callback variant more blocks follow at once: they are still unread (on the socket, in the
+	// face's buffers) when the application closes the face. Whether any of them is still handed up is
+	// left open; what must not happen is that their bytes turn up inside the next connection's stream
+	tailSet := map[string]bool{}
+	if duringCallback {
+		for _, b := range mkBlocks(50+r.Intn(30), 3) {
+			tailSet[string(b)] = true
+			srv.Write(b)
+		}
+		c.Count("reopen_cases_with_unread_bytes_at_close", 1)
+	}
 	if !waitGot(len(first)) {
 		c.Inconclusive("blocks of the first connection did not arrive")
 		return
@@ -1019,10 +1030,35 @@ func c11Reopen(c *h.Ctx, id string, r *rand.Rand) {
 			time.Sleep(300 * time.Microsecond)
 		}
 	}
-	arrived := waitGot(len(second))
+	notTail := func() [][]byte { // under mu
+		var out [][]byte
+		for _, g := range got {
+			if !tailSet[string(g)] {
+				out = append(out, g)
+			}
+		}
+		return out
+	}
+	arrived := false
+	for dl := time.Now().Add(10 * time.Second); time.Now().Before(dl) && !arrived; time.Sleep(200 * time.Microsecond) {
+		mu.Lock()
+		arrived = len(notTail()) >= len(second)
+		mu.Unlock()
+	}
 	mu.Lock()
 	defer mu.Unlock()
-	det := map[string]any{"blocks_first_connection": len(first), "blocks_second_connection": len(second), "handed_up_after_reopen": len(got)}
+	if len(tailSet) > 0 {
+		// blocks of the first connection that are still handed up late are whole blocks of that
+		// connection; everything else must be the second connection's stream
+		keptHeld := held[:0:0]
+		for i, g := range got {
+			if !tailSet[string(g)] && i < len(held) {
+				keptHeld = append(keptHeld, held[i])
+			}
+		}
+		got, held = notTail(), keptHeld
+	}
+	det := map[string]any{"blocks_first_connection": len(first), "blocks_second_connection": len(second), "handed_up_after_reopen": len(got), "unread_blocks_at_close": len(tailSet)}
 	if !arrived {
 		c.Violation("C11:reopen:blocks-lost-after-reopen", id, fmt.Sprintf("%d blocks were sent to a stream face that had been closed and opened again; %d were handed up within 10 s", len(second), len(got)), det)
 		return
